@@ -116,4 +116,12 @@ def handBody : St → Resume → Burst ℚ St
 /-- the first step of `handBody` is not in the domain -/
 theorem hand_unsafe : ¬ DomStep handBody 5 start := by decide +kernel
 
+/-- the `n`-th state of a run that has not ended yet is reachable -/
+theorem reach_nth (body : St → Resume → Burst ℚ St) (n : Nat) (h : (Once.iter body 5 n start).isSome = true) :
+    KReach body 5 start (nth body start n) := by
+  unfold nth
+  cases hn : Once.iter body 5 n start with
+  | none => rw [hn] at h; cases h
+  | some x => exact reach_of_iter n x hn
+
 end Cond
